@@ -308,7 +308,7 @@ func drive(args []string) int {
 			continue
 		}
 		newViol++
-		if printed[v.Key] && newViol > 5 {
+		if (printed[v.Key] && newViol > 5) || len(replayPaths) >= 10 {
 			continue
 		}
 		printed[v.Key] = true
